@@ -211,9 +211,11 @@ def check_locks(ctx, fb):
                 continue
             effs = {writes_after_last_wait(st.events) for st, _ in paths(fs[0]) if any(
                 e[0] == 'write' for e in st.events)}
-            if len(effs) != 1:
-                ctx.broken('blocking %s of %s has %d distinct acquire effects' % (blocking, root, len(effs)))
-            ref[mode] = next(iter(effs))
+            if not effs:
+                ctx.broken('blocking %s of %s has no acquire effect' % (blocking, root))
+            # usually one effect; a lock that distinguishes cases (re-entrant owner: count + 1, first acquisition:
+            # owner := me, count := 1) has one per case — every other acquisition form must offer the same cases
+            ref[mode] = frozenset(effs)
         if 'x' not in ref:
             ctx.broken('%s has no lock()' % root)
 
@@ -273,6 +275,7 @@ def check_locks(ctx, fb):
                     ctx.broken('%s has shared-mode method %s but no lock_shared()' % (root, name))
                 nm = nt = 0
                 rep_m = rep_t = False
+                seen_effs = set()
                 for st, rv in pl:
                     eff = writes_after_last_wait(st.events)
                     allw = frozenset((e[1], e[2]) for e in st.events if e[0] == 'write')
@@ -284,15 +287,17 @@ def check_locks(ctx, fb):
                         success = None
                     if success is True or (success is None and eff):
                         nm += 1
-                        if eff != ref[mode] and not rep_m:
+                        seen_effs.add(eff)
+                        if eff not in ref[mode] and not rep_m:
                             rep_m = True
                             ctx.report(rm, 'R-MODE ' + key_base, f.where,
                                        '%s acquisition leaves lock state {%s}; the blocking %s form leaves {%s}' % (
                                            'exclusive' if mode == 'x' else 'shared',
                                            ', '.join('%s:=%s' % (a.split('::')[-1], b[-1]) for a, b in sorted(eff)),
                                            'lock()' if mode == 'x' else 'lock_shared()',
-                                           ', '.join('%s:=%s' % (a.split('::')[-1], b[-1])
-                                                     for a, b in sorted(ref[mode]))),
+                                           ' | '.join(', '.join('%s:=%s' % (a.split('::')[-1], b[-1])
+                                                                for a, b in sorted(r)) for r in sorted(ref[mode],
+                                                                                                        key=sorted))),
                                        'path: ' + fmt_events(st.events))
                     if f.ret == 'bool' and success is not None:
                         nt += 1
@@ -304,6 +309,15 @@ def check_locks(ctx, fb):
                             rep_t = True
                             ctx.report(rt, 'R-TRY ' + key_base, f.where, 'a path returning true did not acquire',
                                        'path: ' + fmt_events(st.events))
+                if nm and not rep_m and seen_effs and not ref[mode] <= seen_effs:
+                    miss = sorted(ref[mode] - seen_effs, key=sorted)[0]
+                    ctx.report(rm, 'R-MODE ' + key_base, f.where,
+                               'the blocking %s form acquires in %d different ways (one of them leaves {%s}) but this '
+                               'form never does that: a case lock() handles (the owner re-entering) is acquired here '
+                               'with the effect of another case — ownership levels are lost or invented' % (
+                                   'lock()' if mode == 'x' else 'lock_shared()', len(ref[mode]),
+                                   ', '.join('%s:=%s' % (a.split('::')[-1], b[-1]) for a, b in sorted(miss))),
+                               'method: ' + f.full)
                 if nm:
                     ctx.instance(rm, key_base + ('<%s>' % ','.join(f.fta)[:40] if f.fta else ''),
                                  dict(method=f.full, mode=mode, success_paths=nm))
@@ -552,11 +566,11 @@ def run(ctx):
     fb = fbs['KF']
     ctx.assume('fibers are cooperative: a lock method is pre-empted only inside FiberQueue::Wait / InjectFault')
     ctx.assume('acquire/release API names are those of the std contracts (lock, try_lock*, lock_shared*, unlock*)')
-    check_locks(ctx, fb)
-    check_cv(ctx, fb)
-    check_join(ctx, fb)
-    check_forward(ctx, fb)
+    ctx.guard(lambda: check_locks(ctx, fb))
+    ctx.guard(lambda: check_cv(ctx, fb))
+    ctx.guard(lambda: check_join(ctx, fb))
+    ctx.guard(lambda: check_forward(ctx, fb))
     rodr = ctx.rule('R-ODR', 'every inline / constexpr library function used by the yaclib_std wrappers is defined in the '
                     'translation unit that uses it (otherwise that part of the API does not link)', minimum=1)
     from rules import lib_core
-    lib_core.check_undefined_inline(ctx, fb, rodr)
+    ctx.guard(lambda: lib_core.check_undefined_inline(ctx, fb, rodr))
